@@ -7,6 +7,9 @@
 
 pub const CAP: usize = 4;
 
+/// NOTE on shape: every operation walks the slots with a CONSTANT index and a guard, and never
+/// computes a slot index as a value. A symbolic index into an array of rows makes CBMC treat the
+/// rows as byte arrays, after which every pointer read from a row (callsign String) explodes.
 pub struct HashMap<K, V> {
     pub slots: [Option<(K, V)>; CAP],
 }
@@ -17,27 +20,11 @@ impl<K: Copy + PartialEq, V> HashMap<K, V> {
             slots: [None, None, None, None],
         }
     }
-    fn find(&self, k: &K) -> Option<usize> {
-        let mut i = 0;
-        while i < CAP {
-            if let Some((kk, _)) = &self.slots[i] {
-                if *kk == *k {
-                    return Some(i);
-                }
-            }
-            i += 1;
+    fn holds(&self, i: usize, k: &K) -> bool {
+        match &self.slots[i] {
+            Some((kk, _)) => *kk == *k,
+            None => false,
         }
-        None
-    }
-    fn free(&self) -> Option<usize> {
-        let mut i = 0;
-        while i < CAP {
-            if self.slots[i].is_none() {
-                return Some(i);
-            }
-            i += 1;
-        }
-        None
     }
     pub fn len(&self) -> usize {
         let mut n = 0;
@@ -51,28 +38,55 @@ impl<K: Copy + PartialEq, V> HashMap<K, V> {
         n
     }
     pub fn get(&self, k: &K) -> Option<&V> {
-        match self.find(k) {
-            Some(i) => self.slots[i].as_ref().map(|(_, v)| v),
-            None => None,
+        if self.holds(0, k) {
+            return self.slots[0].as_ref().map(|(_, v)| v);
         }
+        if self.holds(1, k) {
+            return self.slots[1].as_ref().map(|(_, v)| v);
+        }
+        if self.holds(2, k) {
+            return self.slots[2].as_ref().map(|(_, v)| v);
+        }
+        if self.holds(3, k) {
+            return self.slots[3].as_ref().map(|(_, v)| v);
+        }
+        None
     }
     pub fn contains_key(&self, k: &K) -> bool {
-        self.find(k).is_some()
+        self.holds(0, k) || self.holds(1, k) || self.holds(2, k) || self.holds(3, k)
     }
-    pub fn insert(&mut self, k: K, v: V) -> Option<V> {
-        match self.find(&k) {
-            Some(i) => self.slots[i].replace((k, v)).map(|(_, v)| v),
-            None => {
-                // the harness never fills the model beyond CAP-1 rows
-                let i = self.free().expect("model map full");
-                self.slots[i] = Some((k, v));
-                None
-            }
+    /// put (k, v) into the first free slot (the harness never fills the model beyond CAP rows)
+    fn put_free(&mut self, k: K, v: V) {
+        if self.slots[0].is_none() {
+            self.slots[0] = Some((k, v));
+        } else if self.slots[1].is_none() {
+            self.slots[1] = Some((k, v));
+        } else if self.slots[2].is_none() {
+            self.slots[2] = Some((k, v));
+        } else if self.slots[3].is_none() {
+            self.slots[3] = Some((k, v));
+        } else {
+            panic!("model map full");
         }
     }
+    pub fn insert(&mut self, k: K, v: V) -> Option<V> {
+        if self.holds(0, &k) {
+            return self.slots[0].replace((k, v)).map(|(_, v)| v);
+        }
+        if self.holds(1, &k) {
+            return self.slots[1].replace((k, v)).map(|(_, v)| v);
+        }
+        if self.holds(2, &k) {
+            return self.slots[2].replace((k, v)).map(|(_, v)| v);
+        }
+        if self.holds(3, &k) {
+            return self.slots[3].replace((k, v)).map(|(_, v)| v);
+        }
+        self.put_free(k, v);
+        None
+    }
     pub fn entry(&mut self, k: K) -> Entry<'_, K, V> {
-        let idx = self.find(&k);
-        Entry { map: self, key: k, idx }
+        Entry { map: self, key: k }
     }
     pub fn retain<F: FnMut(&K, &mut V) -> bool>(&mut self, mut f: F) {
         let mut i = 0;
@@ -96,28 +110,48 @@ impl<K: Copy + PartialEq, V> HashMap<K, V> {
 pub struct Entry<'a, K, V> {
     map: &'a mut HashMap<K, V>,
     key: K,
-    idx: Option<usize>,
 }
 
 impl<'a, K: Copy + PartialEq, V> Entry<'a, K, V> {
     pub fn and_modify<F: FnOnce(&mut V)>(self, f: F) -> Self {
-        if let Some(i) = self.idx {
-            if let Some((_, v)) = &mut self.map.slots[i] {
-                f(v);
+        let mut f = Some(f);
+        let mut i = 0;
+        while i < CAP {
+            if self.map.holds(i, &self.key) {
+                if let Some((_, v)) = &mut self.map.slots[i] {
+                    if let Some(g) = f.take() {
+                        g(v);
+                    }
+                }
             }
+            i += 1;
         }
         self
     }
     pub fn or_insert(self, default: V) -> &'a mut V {
-        let i = match self.idx {
-            Some(i) => i,
-            None => {
-                let i = self.map.free().expect("model map full");
-                self.map.slots[i] = Some((self.key, default));
-                i
-            }
-        };
-        match &mut self.map.slots[i] {
+        let Entry { map, key } = self;
+        if !map.contains_key(&key) {
+            map.put_free(key, default);
+        }
+        if map.holds(0, &key) {
+            return match &mut map.slots[0] {
+                Some((_, v)) => v,
+                None => unreachable!(),
+            };
+        }
+        if map.holds(1, &key) {
+            return match &mut map.slots[1] {
+                Some((_, v)) => v,
+                None => unreachable!(),
+            };
+        }
+        if map.holds(2, &key) {
+            return match &mut map.slots[2] {
+                Some((_, v)) => v,
+                None => unreachable!(),
+            };
+        }
+        match &mut map.slots[3] {
             Some((_, v)) => v,
             None => unreachable!(),
         }
